@@ -8,10 +8,9 @@ from vh import gen as G
 
 
 def units(tier):
-    us = PG.program_units(tier, "diff_prog", stds=("both",), ics=(True,))
-    if tier != "quick":
-        us += PG.program_units(tier, "diff_prog", stds=("both",), ics=(False,), lens=PG.LENS_Q)
-    return us
+    if tier == "quick":
+        return PG.program_units(tier, "diff_prog", stds=("both",), ics=(True,))
+    return PG.program_units(tier, "diff_prog", stds=("both",), ics=(True, False), rotate=True)
 
 
 def meta(tier):
@@ -19,7 +18,7 @@ def meta(tier):
     return dict(bounds=dict(programs=len(PG.programs(tier)), hole_lengths=PG.LENS_Q if q else PG.LENS_T, one_symbolic_hole_per_unit=True),
                 assumptions=["names differ from keywords and from every intrinsic name of either standard",
                              "registries built by the real ParserFactory.create(std), cached per process"],
-                budget_s=400 if q else 3300, unit_budget_s=60 if q else 300)
+                budget_s=400 if q else 2400, unit_budget_s=60 if q else 300)
 
 
 def diff_prog(ctx):
